@@ -1,6 +1,7 @@
 package regex
 
 import (
+	"fmt"
 	"regexp"
 	stdSync "sync"
 
@@ -96,7 +97,28 @@ func (s *RSchema) generateExample() ([]byte, error) {
 
 	s.generatorMx.Lock()
 	defer s.generatorMx.Unlock()
-	return []byte(g.Generate(1)), nil
+	return s.generateMatching(g)
+}
+
+// maxExampleAttempts bounds the search for an example the pattern matches.
+const maxExampleAttempts = 32
+
+// generateMatching asks the generator until it produces a string that the
+// pattern really matches: the generator ignores anchors and word boundaries
+// and panics on an empty character class.
+func (s *RSchema) generateMatching(g *reggen.Generator) (ex []byte, err error) {
+	defer func() {
+		if r := recover(); r != nil {
+			ex, err = nil, errs.ErrRegexExample.F(fmt.Sprint(r))
+		}
+	}()
+	for i := 0; i < maxExampleAttempts; i++ {
+		str := g.Generate(1)
+		if s.RE.MatchString(str) {
+			return []byte(str), nil
+		}
+	}
+	return nil, errs.ErrRegexExample.F("no matching example found")
 }
 
 func (*RSchema) AddType(string, schema.Schema) error {
